@@ -19,7 +19,7 @@ static const char* primName[] = {"mutex", "semaphore", "signal", "monitor", "thr
 enum Code { MX_LOCK = 1, MX_TRYLOCK, MX_UNLOCK, SE_SIGNAL, SE_WAIT, SE_WAITT, SE_TRY, SG_SET, SG_RESET, SG_WAIT, SG_WAITT, MO_SET, MO_WAIT, MO_WAITT, TH_START, TH_JOIN, WORK, SLEEP, CODE_N };
 static const char* codeName[] = {"?", "lock", "tryLock", "unlock", "sem.signal", "sem.wait", "sem.wait(t)", "sem.tryWait", "sig.set", "sig.reset", "sig.wait", "sig.wait(t)", "mon.set", "mon.wait", "mon.wait(t)", "thread.start", "thread.join", "work", "sleep"};
 static const char* opName(int c) { return (c > 0 && c < CODE_N) ? codeName[c] : "?"; }
-static const int64_t timeouts[] = {0, 1, 10, 300, 2500};
+static const int64_t timeouts[] = {0, 1, 10, 300, 2500, 3000000000LL};   /* the last one does not fit 32 bits (34.7 days) */
 
 struct Ctx {
   const RunSpec* spec; int prim; int ntasks;
@@ -74,7 +74,7 @@ static void worker(void* a) {
   for (size_t i = 0; i < s.plan.size(); ++i) {
     const Op& op = s.plan[i];
     if (op.task != w) continue;
-    int64_t t = timeouts[(op.a[0] < 0 ? 0 : op.a[0]) % 5];
+    int64_t t = timeouts[(op.a[0] < 0 ? 0 : op.a[0]) % (simdrv::knob(s, "no_sem_timedwait", 0) ? 5 : 6)];   /* (the polling fallback for platforms without sem_timedwait polls every 10 ms: 34 days of that is not a run) */
     switch (op.code) {
     case WORK: spin((int)(op.a[0] % 16)); break;
     case SLEEP: Thread::sleep(t); break;
